@@ -24,7 +24,9 @@ pub fn fill(cfg: &Cfg) -> Vec<Cmd> {
                 (true, 7) => 'é',
                 (true, 13) => '漢',
                 (true, 19) => '\u{301}',
-                _ => char::from_u32('A' as u32 + ((r * 7 + cc * 3) % 26) as u32).unwrap(),
+                // (lowercase: the range the special-graphics set translates, so that a character
+                // REPeated or re-typed under another charset than it was written in shows)
+                _ => char::from_u32('a' as u32 + ((r * 7 + cc * 3) % 26) as u32).unwrap(),
             })
             .collect();
         v.push(Text(s));
@@ -346,6 +348,13 @@ pub fn wide_print_funcs(cfg: &Cfg) -> Vec<Op> {
             v.push(c(Seq(vec![pre.clone(), Text(s)])));
         }
     }
+    // REP of every count in insert mode, with auto-wrap off and under the other charset than
+    // the repeated character was written in ("as if typed": translated, inserted, parked)
+    for pre in [Sm(vec![4]), DecRst(vec![7]), Desig(0, true)] {
+        for p in wide_values(cfg.cols + 2) {
+            v.push(c(Seq(vec![pre.clone(), Rep(p)])));
+        }
+    }
     v
 }
 
@@ -426,6 +435,22 @@ pub fn mode_list_ops() -> Vec<Op> {
             v.push(c(DecRst(l)));
         }
     }
+    // the same mode twice in one list (1048 / 1049 / 6 are ACTIONS: each mention counts), with
+    // and without something else in between
+    for &m in &dec {
+        for l in [vec![m, m], vec![m, 6, m], vec![m, 7, 25, m], vec![6, m, 6]] {
+            v.push(c(DecSet(l.clone())));
+            v.push(c(DecRst(l)));
+        }
+    }
+    // setups that leave the other screen parked in another geometry and with history
+    let five = || vec![Text("1".into()), Nel, Text("2".into()), Nel, Text("3".into()), Nel, Text("4".into()), Nel, Text("5".into())];
+    let mut a = five();
+    a.extend([DecSet(vec![1049]), Resize(4, 5)]);
+    v.push(c(Seq(a)));
+    let mut b = five();
+    b.extend([DecSet(vec![47]), Resize(6, 3), Decstbm(Some(2), Some(3)), DecSet(vec![6])]);
+    v.push(c(Seq(b)));
     // a mode at EVERY position of a long list: after 1..=31 other implemented modes (toggled
     // back and forth so that they cancel) the k-th entry still counts
     for &m in &[1u32, 6, 7, 25, 1047, 1048, 1049] {
